@@ -429,3 +429,100 @@ def run(F, rep, tier):
     obligations(F, rep)
     import c02
     c02.copy_structure(F, rep)
+    unification_core(F, rep)
+    tc.dropped_results(F, rep, "DROPPED-ERROR", ["sylt_compiler::typechecker::", "sylt_compiler::name_resolution::", "sylt_compiler::dependency::"])
+
+
+def unification_core(F, rep, rule="UNIFY-CORE"):
+    """the engine all mismatch rules rely on: merged nodes keep both constraint sets, constraints are re-checked after a
+    merge, and every constraint handler's verdict is propagated"""
+    fu = F.fn(TC + "union")
+    rep.analysed(fu)
+    body = fn_body(fu)
+    # which local gets a parent (the absorbed node) and which is the root
+    absorbed = root = None
+    for a in nodes(body, "Assign"):
+        l = peel(a["l"])
+        if l.get("k") == "Field" and l["name"] == "parent":
+            absorbed = peel(peel(l["e"])["i"]).get("hid")
+            for x in nodes(a["r"], "Path"):
+                if x.get("res") == "Local":
+                    root = x["hid"]
+    merged = False
+    for lp in nodes(body, "ForLoop"):
+        it = pp(lp["iter"])
+        src_ok = any(x.get("hid") == absorbed for x in nodes(lp["iter"], "Path")) and "constraints" in it
+        ins = [c for c in nodes(lp["body"], "MethodCall") if c["m"] == "insert" and "constraints" in pp(c["recv"])
+               and any(x.get("hid") == root for x in nodes(c["recv"], "Path"))]
+        if src_ok and ins:
+            merged = True
+    rep.ob(rule, "union|constraints-merged", merged and absorbed is not None,
+           "union() copies the constraints of the absorbed node onto the root (otherwise a deferred operator / shape requirement is "
+           "forgotten when its node is unified with another)", fu["sp"])
+    fsu = F.fn(TC + "sub_unify")
+    seq = [last(callee(c)) for c in nodes(fn_body(fsu), "MethodCall") if callee(c) in (TC + "union", TC + "check_constraints")]
+    rep.ob(rule, "sub_unify|union-then-recheck", seq[-2:] == ["union", "check_constraints"],
+           "sub_unify ends with union(a, b) followed by check_constraints(a): merged constraints are checked against the merged type (%s)" % seq,
+           fsu["sp"])
+    # the Unknown arms copy the *other* side's type
+    ok_unknown = 0
+    for m in nodes(fn_body(fsu), "Match"):
+        if m.get("scrut_ty", "").count("sylt_compiler::ty::Type") != 2:
+            continue
+        for arm in m["arms"]:
+            ps = tc._tuple_pats(arm["pat"], 2)
+            b = peel(arm["body"])
+            if b.get("k") == "Assign" and len(ps) == 2 and ("Unknown" in ps[0] or "Unknown" in ps[1]):
+                tgt = pp(b["l"])
+                src = pp(b["r"])
+                if ps[1] == frozenset(["Unknown"]) and "find_node_mut(b)" in tgt and "find_type(a)" in src:
+                    ok_unknown += 1
+                if ps[0] == frozenset(["Unknown"]) and "find_node_mut(a)" in tgt and "find_type(b)" in src:
+                    ok_unknown += 1
+        break
+    rep.ob(rule, "sub_unify|unknown-takes-other-side", ok_unknown == 2,
+           "an Unknown node takes the type of the other side, in both directions (%d/2 arms)" % ok_unknown, fsu["sp"])
+    # check_constraints: the handler's verdict is propagated with `?`
+    fcc = F.fn(TC + "check_constraints")
+    prop = False
+    for lp in nodes(fn_body(fcc), "ForLoop"):
+        for t in nodes(lp["body"], "Try"):
+            if any(mm for mm in nodes(t["e"], "Match") if ty_is_constraint(mm)):
+                prop = True
+    rep.ob(rule, "check_constraints|verdict-propagated", prop,
+           "check_constraints applies `?` to the verdict of every constraint handler (inside the loop over the node's constraints)", fcc["sp"])
+    # the constraints checked are those of the node's class representative
+    it_ok = any("self.find_node(a).constraints" in pp(lp["iter"]) for lp in nodes(fn_body(fcc), "ForLoop"))
+    rep.ob(rule, "check_constraints|all-constraints", it_ok, "check_constraints walks all constraints stored on the node's representative", fcc["sp"])
+    # operands of Variant / Case constraints carry the payload types
+    fexpr = F.fn(TC + "expression")
+    fl = Flow(fexpr, fn_body(fexpr))
+    for armname, want in (("Variant", "exprof:value"), ("Case", "varty:")):
+        for arm, alt in tc.arm_of(F, fexpr, NR + "Expression", armname):
+            got = None
+            for c in nodes(arm["body"], "MethodCall"):
+                if callee(c) == TC + "add_constraint" and tc.constraint_name(c["args"][2]) == "Variant":
+                    payload = peel(c["args"][2])["args"][1]
+                    got = describe_opt(fl, payload)
+            rep.ob(rule, "expression|%s|variant-payload" % armname, got is not None and got.startswith(want),
+                   "the Variant constraint of a %s carries %s (the payload's type is tied to the enum's declaration): %s" % (
+                       "variant construction" if armname == "Variant" else "case branch", "the value's type" if armname == "Variant" else "the binding's type", got),
+                   line_of(arm))
+
+
+def ty_is_constraint(m):
+    return m.get("scrut_ty", "").replace("&", "").strip() == TCM + "Constraint"
+
+
+def describe_opt(fl, e):
+    """describe an Option<TyID> payload: Some(x) / *constraint bound from `branch.variable.map(|var| self.variables[var].ty)`"""
+    e = peel(e)
+    if e.get("k") == "Call" and (callee(e) or "").endswith("Option::Some"):
+        return tc.describe(fl, e["args"][0])
+    src = fl.trace(e)
+    if src.get("k") == "Unary":
+        src = fl.trace(src["e"])
+    t = pp(src)
+    if "self.variables[var].ty" in t and ".variable.map(" in t:
+        return "varty:branch.variable"
+    return "?" + t[:40]
